@@ -151,7 +151,7 @@ func (m *machine) model() lists {
 	for _, f := range families {
 		var ms []scored
 		if isGeneric(f) {
-			crible := fontscan.VerifSubstitutions([]string{f}, 0)
+			crible := m.subs([]string{f}, 0)
 			for i, e := range db {
 				if s, ok := crible[e.Family]; ok {
 					ms = append(ms, scored{i, s.Score, s.Strong})
@@ -181,7 +181,7 @@ func (m *machine) model() lists {
 
 	// step 2: similar families (substitutions) and faces supporting the script, pruned together
 	{
-		crible := fontscan.VerifSubstitutions(families, language.ScriptToLang[script])
+		crible := m.subs(families, language.ScriptToLang[script])
 		var ms []scored
 		for i, e := range db {
 			if s, ok := crible[e.Family]; ok {
